@@ -9,16 +9,22 @@ namespace AsamCmp
 def payloadEq (a b : Payload) : Bool :=
   a.ty == b.ty && a.data.length == b.data.length && a.data == b.data
 
-/-- `operator==(Packet, Packet)`: header fields, then the payloads when both (16-bit) lengths are
-    equal and non-zero, else just the lengths -/
+/-- real size of the payload (`payload->getLength()`), 0 without payload -/
+def Packet.fullLength (p : Packet) : Nat :=
+  match p.payload with
+  | none => 0
+  | some pl => pl.data.length
+
+/-- `operator==(Packet, Packet)`: header fields, then the payloads when both sizes are equal and
+    non-zero, else just the sizes (the real sizes since the repair; formerly the 16-bit wire lengths) -/
 def packetEq (a b : Packet) : Bool :=
   a.version == b.version && a.deviceId == b.deviceId && a.streamId == b.streamId && a.seq == b.seq &&
   a.ts == b.ts && a.ifId == b.ifId && a.vendorId == b.vendorId && a.flags == b.flags && a.segType == b.segType &&
-  (if a.payloadLength = b.payloadLength ∧ 0 < a.payloadLength then
+  (if a.fullLength = b.fullLength ∧ 0 < a.fullLength then
      match a.payload, b.payload with
      | some x, some y => payloadEq x y
      | _, _ => false
-   else a.payloadLength == b.payloadLength)
+   else a.fullLength == b.fullLength)
 
 def packetNe (a b : Packet) : Bool := !packetEq a b
 
